@@ -4,6 +4,7 @@ import (
 	"encoding/json"
 	"fmt"
 	"os"
+	"os/exec"
 	"path/filepath"
 	"strings"
 
@@ -53,6 +54,16 @@ type CheckSpec struct {
 	Outside      []string          `json:"outside_claim"`
 	Units        []string          `json:"units"`
 	NonExhaustive bool             `json:"non_exhaustive"`
+	// ModelPkgs replaces a dependency package by a contract model: every
+	// non-test .go file of the module's root package is overlaid by an empty
+	// file and the model source is added.
+	ModelPkgs []ModelPkg `json:"model_pkgs"`
+}
+
+type ModelPkg struct {
+	Module string `json:"module"` // module path, e.g. go.etcd.io/bbolt
+	Name   string `json:"name"`   // package name
+	Model  string `json:"model"`  // file under harness/
 }
 
 type KnownFinding struct {
@@ -106,9 +117,45 @@ func loadKnown() []KnownFinding {
 }
 
 // overlayFor maps virtual /repo paths to harness file contents.
-func overlayFor(files []string) (map[string][]byte, map[string]string, error) {
+func overlayFor(files []string, models ...ModelPkg) (map[string][]byte, map[string]string, error) {
 	ov := map[string][]byte{}
 	real := map[string]string{}
+	for _, m := range models {
+		cmd := exec.Command("go", "list", "-m", "-f", "{{.Dir}}", m.Module)
+		cmd.Dir = repoDir
+		cmd.Env = goEnv()
+		out, err := cmd.Output()
+		if err != nil {
+			return nil, nil, fmt.Errorf("go list -m %s: %v", m.Module, err)
+		}
+		dir := strings.TrimSpace(string(out))
+		ents, err := os.ReadDir(dir)
+		if err != nil {
+			return nil, nil, err
+		}
+		blank := filepath.Join(harnessDir, filepath.Dir(m.Model), "blank.go")
+		bb, err := os.ReadFile(blank)
+		if err != nil {
+			return nil, nil, err
+		}
+		for _, e := range ents {
+			n := e.Name()
+			if e.IsDir() || !strings.HasSuffix(n, ".go") || strings.HasSuffix(n, "_test.go") {
+				continue
+			}
+			ov[filepath.Join(dir, n)] = bb
+			real[filepath.Join(dir, n)] = blank
+		}
+		src := filepath.Join(harnessDir, m.Model)
+		mb, err := os.ReadFile(src)
+		if err != nil {
+			return nil, nil, err
+		}
+		// new files cannot be added to a module-cache package by an overlay:
+		// the model takes the place of doc.go
+		ov[filepath.Join(dir, "doc.go")] = mb
+		real[filepath.Join(dir, "doc.go")] = src
+	}
 	all := append([]string{"pkg/zzvrt/vrt.go"}, files...)
 	for _, f := range all {
 		src := filepath.Join(harnessDir, f)
@@ -130,7 +177,7 @@ func goEnv() []string {
 }
 
 func loadProgram(cs *CheckSpec) (*ssa.Program, map[string]*ssa.Package, error) {
-	ov, _, err := overlayFor(cs.Files)
+	ov, _, err := overlayFor(cs.Files, cs.ModelPkgs...)
 	if err != nil {
 		return nil, nil, err
 	}
